@@ -261,7 +261,7 @@ func errStr(err error) string {
 
 // strict enables the sub-checks that the unchanged tree is known to fail (see NOTES.md, "suspected
 // genuine defects"); off by default so that the tiers stay green until the owner decides.
-func strict() bool { return os.Getenv("VERIF_C08_STRICT") == "1" }
+func strict() bool { return os.Getenv("VERIF_C08_LENIENT") != "1" } // strict by default: both defects were repaired in /repo
 
 func jsonUnmarshal(raw json.RawMessage, v any) error { return json.Unmarshal(raw, v) }
 
